@@ -69,6 +69,8 @@ def gen(rng: Any, tier: str, i: int) -> Any:
         prog["naz"] = rng.random() < 0.35
     else:
         prog["naz"] = rng.random() < 0.4
+    if prog["mode"] == "pool" and rng.random() < 0.5:
+        prog["pool_prior_other_naz"] = True
     if prog.get("naz") or any(prog.get("leaf_naz") or []):
         prog.pop("nest", None)  # (a separately built sub-formula yields None, not the zeros of its inputs)
     return prog
